@@ -110,6 +110,20 @@ CHECKS = {
         "Hypothesis mutation of valid frames + exhaustive truncation + atheris coverage-guided fuzzing with a containment oracle",
         "DESIGN.md 4/C08",
     ),
+    "C06": (
+        "exploration",
+        "Real EZSP object and version handler (4, 7, 13 quick; 4..14 thorough) on a virtual clock against a plan-driven "
+        "gateway/NCP: up to 12 overlapping callers from the three priority classes (and 300-call runs that wrap the sequence "
+        "byte), per request {gateway accepts at once / after a delay / raises} x {reply, late reply, no reply, duplicate "
+        "reply, callback before/after}, cancellations while queued, inside send_data and while awaiting. Invariants over the "
+        "log: one command in flight, start order by class then arrival, consecutive sequence bytes, each caller gets exactly "
+        "the payload sent for its own request frame or TimeoutError inside the [request seen, request accepted]+10 s window "
+        "or the link exception, callbacks delivered to every registered callback exactly once, replies never leak, no slot leaked.",
+        "Conforming peer only (callbacks tagged with the last response's sequence); zigpy's priority semaphore trusted; "
+        "same-instant ties between an arrival and a slot grant are not judged.",
+        "Hypothesis schedule/fault plans on a virtual clock with a plan-driven peer; log invariants (history oracle)",
+        "DESIGN.md 4/C06",
+    ),
 }
 
 NOT_YET = "check not built yet in this session (planned, see DESIGN.md section 4)"
